@@ -192,6 +192,7 @@ def r3_halton(ctx, repo):
         return any((access_path(c.func) or "") == "_van_der_corput" for c in calls_in(node))
     # path rule: on every path reaching the construction, len(bases) == dimension was established after the last assignment of bases
     bad = None
+    unknown_paths = []
     npaths = 0
     anchor = fn
     for p in Enumerator(loop_counts=(1, 2)).function_paths(fn):
@@ -200,25 +201,34 @@ def r3_halton(ctx, repo):
             continue
         anchor = p.events[idx].node
         npaths += 1
-        last_def = max([i for i, e in enumerate(p.events[:idx]) if e.kind == "stmt" and isinstance(e.node, ast.Assign) and any(access_path(t) == bases_var for t in e.node.targets)] or [-1])
-        if last_def < 0:
+        # the value of the bases at the point of use, as a term along this path (aliases and inlined helpers resolved)
+        pe = PathEnv(fn, p.events)
+        d = pe.expand_at(ast.Name(id=bases_var, ctx=ast.Load()), idx)
+        if text(d) == bases_var:
             bad = bad or (p, "the bases are not defined before use")
             continue
-        d = PathEnv(fn, p.events).expand_at(p.events[last_def].node.value, last_def)
         from_sieve = any((access_path(c.func) or "") == "_primes_from_2_to" for c in calls_in(d)) and isinstance(d, ast.Subscript) and isinstance(d.slice, ast.Slice) \
             and d.slice.lower is None and access_path(d.slice.upper) == dim
         if not from_sieve:
-            bad = bad or (p, "the bases are %s, not the first `dimension` primes of the sieve" % text(d))
+            if any((access_path(c.func) or "") == "_primes_from_2_to" for c in calls_in(d)):
+                bad = bad or (p, "the bases are %s, not the first `dimension` primes of the sieve" % text(d))
+            else:
+                unknown_paths.append((p, "the bases are %s: origin not recognised" % text(d)))
+            continue
         checked = False
-        for e in p.events[last_def:idx]:
-            if e.kind == "guard" and isinstance(e.node, ast.Compare) and len(e.node.ops) == 1 and isinstance(e.node.ops[0], (ast.Eq, ast.NotEq)) \
-                    and {text(e.node.left), text(e.node.comparators[0])} == {"len(%s)" % bases_var, dim}:
-                if bool(e.val) == isinstance(e.node.ops[0], ast.Eq):
-                    checked = True
+        for i_, e in enumerate(p.events[:idx]):
+            if e.kind == "guard" and isinstance(e.node, ast.Compare) and len(e.node.ops) == 1 and isinstance(e.node.ops[0], (ast.Eq, ast.NotEq)):
+                sides = [e.node.left, e.node.comparators[0]]
+                for a_, b_ in (sides, sides[::-1]):
+                    if isinstance(a_, ast.Call) and text(a_.func) == "len" and len(a_.args) == 1 and text(pe.expand_at(b_, i_)) == dim \
+                            and text(pe.expand_at(a_.args[0], i_)) == text(d) and bool(e.val) == isinstance(e.node.ops[0], ast.Eq):
+                        checked = True
         if not checked:
             bad = bad or (p, "the sieve result is used without checking that it contains `dimension` primes: for some dimensions fewer bases (hence fewer coordinates) are produced")
     if bad:
         ctx.violated("R3", C, where(doe, anchor), bad[1] + " (path [%s])" % bad[0].describe(4), key="bases")
+    elif unknown_paths:
+        ctx.inconclusive("R3", C, where(doe, anchor), unknown_paths[0][1], key="bases")
     elif npaths == 0:
         ctx.inconclusive("R3", C, where(doe, fn), "no path reaches the sequence construction", key="bases")
     else:
@@ -434,14 +444,19 @@ def r4_lhs(ctx, repo):
         if isinstance(idx_term, ast.Call) and not (access_path(idx_term.func) or "").endswith(".permutation"):
             problems.append("the rows of column %s are picked by %s, which is not a permutation of range(N): strata can be used twice or not at all" % (j, text(idx_term)))
         elif not order:
-            pcalls = [c for c in calls_in(s_.value) if (access_path(c.func) or "").endswith(".permutation")] or \
-                     [c for c in ast.walk(vx) if isinstance(c, ast.Call) and (access_path(c.func) or "").endswith(".permutation")]
-            if pcalls and text(pcalls[0].args[0]) in ("range(%s)" % samples, samples) and text(vx).startswith("%s[" % strat_var) and text(vx).endswith(", %s]" % j):
+            pcalls = [c for c in ast.walk(vx) if isinstance(c, ast.Call) and (access_path(c.func) or "").endswith(".permutation")] or \
+                     [c for c in calls_in(s_.value) if (access_path(c.func) or "").endswith(".permutation")]
+            parg = text(pcalls[0].args[0]) if pcalls and pcalls[0].args else None
+            drawn_outside = [x for x in fn.body if isinstance(x, ast.Assign) and isinstance(x.value, ast.Call)
+                             and (access_path(T.expand(x.value.func, at=x)) or "").endswith(".permutation")]
+            if parg in ("range(%s)" % samples, samples) and text(vx).startswith("%s[" % strat_var) and text(vx).endswith(", %s]" % j):
                 pass
-            elif any((access_path(c.func) or "").endswith(".permutation") for c in calls_in(fn)):
-                problems.append("rows are not reordered by a permutation of range(N) drawn inside the column loop")
+            elif parg is not None and parg.startswith("range(") and parg != "range(%s)" % samples:
+                problems.append("rows are reordered by a permutation of %s, not of range(%s)" % (parg, samples))
+            elif not pcalls and drawn_outside:
+                problems.append("rows are not reordered by a permutation of range(N) drawn inside the column loop (one draw at line %d serves every column)" % drawn_outside[0].lineno)
             else:
-                unknown.append("permutation draw not found")
+                unknown.append("permutation draw not recognised in %s" % text(vx))
         elif text(order[0].value.args[0]) not in ("range(%s)" % samples, samples):
             problems.append("rows are not reordered by a permutation of range(N) drawn inside the column loop")
         else:
